@@ -67,6 +67,38 @@ type c11Env struct {
 	classes  map[string]bool
 	invalid  int
 	special  int
+	lastGT   string // the connections of the latest GROUPTRIGGER message clients got ("" none yet)
+	haveGT   bool
+}
+
+// noteGT remembers the latest GROUPTRIGGER state among the messages.
+func (e *c11Env) noteGT(msgs []ClientUpdate) {
+	for _, u := range msgs {
+		if u.tag == "GROUPTRIGGER" {
+			if gs, ok := u.state.(*GroupTriggerState); ok {
+				e.lastGT, e.haveGT = c11Conn(*gs), true
+			} else if gs, ok := u.state.(GroupTriggerState); ok {
+				e.lastGT, e.haveGT = c11Conn(gs), true
+			}
+		}
+	}
+}
+
+// afterStartReport: once a (re)start has been announced, what clients were last told about the connections is what the new run uses.
+func (e *c11Env) afterStartReport(i int) *vVerdict {
+	if !e.running || !e.sc.ActiveSource.Running() {
+		return nil
+	}
+	c11SettleClientMessages()
+	e.noteGT(vTakeClientMessages())
+	if !e.haveGT {
+		return nil
+	}
+	if used := c11Conn(e.sc.ActiveSource.ComputeGroupTriggerState()); used != e.lastGT {
+		f := vFailf("reported-coupling-stale", "step %d (start number %d): clients were last told the connections are %s, the run that has just started uses %s", i, e.started, e.lastGT, used)
+		return &f
+	}
+	return nil
 }
 
 // c11AnySource finds the AnySource inside the source the RPC layer talks to (through the monitor wrapper, if any).
@@ -345,6 +377,9 @@ func c11Run(c c11Case) (v vVerdict) {
 						}
 						e.classes["self-ended"] = true
 					}
+					if f := e.afterStartReport(i); f != nil {
+						return *f
+					}
 				}
 				continue
 			}
@@ -399,6 +434,9 @@ func c11Run(c c11Case) (v vVerdict) {
 			sc.broadcastChannelNames()
 			e.running = true
 			e.started++
+			if f := e.afterStartReport(i); f != nil {
+				return *f
+			}
 			continue
 		case "stop":
 			was := sc.isSourceActive
@@ -901,7 +939,9 @@ func c11Run(c c11Case) (v vVerdict) {
 			c11SettleClientMessages()
 			used := c11Conn(sc.ActiveSource.ComputeGroupTriggerState())
 			reported, coupling := "", -1
-			for _, u := range vTakeClientMessages() {
+			msgs := vTakeClientMessages()
+			e.noteGT(msgs)
+			for _, u := range msgs {
 				if u.tag == "GROUPTRIGGER" {
 					if gs, ok := u.state.(*GroupTriggerState); ok {
 						reported = c11Conn(*gs)
@@ -1189,6 +1229,10 @@ func c09rGen(t *rapid.T) c11Case {
 		}
 	}
 	c.Steps = append(c.Steps, c11Step{Op: "stop"})
+	if rapid.Bool().Draw(t, "restart") {
+		// the next run begins without connections, and clients must have been told so
+		c.Steps = append(c.Steps, c11Step{Op: "start"}, c11Step{Op: "group", Src: 0, Rx: []int{1}, Flag: true}, c11Step{Op: "stop"})
+	}
 	return c
 }
 
